@@ -244,9 +244,11 @@ theorem decodeFile_raw {b : ByteArray} {c : FileContent} (h : decodeFile b = .ok
       · simp only at h
         split at h
         · rename_i hf
-          injection h with h
-          subst h
-          exact ⟨raw, hr, rfl, rfl, rfl, hf⟩
+          split at h
+          · injection h with h
+            subst h
+            exact ⟨raw, hr, rfl, rfl, rfl, hf⟩
+          · simp [bad] at h
         · simp [bad] at h
 
 theorem readChain_ok {b : ByteArray} {blocks : List Block} (h : readChain b = .ok blocks) :
